@@ -503,8 +503,35 @@ func buildCase(c *vh.Ctx, in []reflect.Type, variadic bool, out []reflect.Type, 
 		cs.resVal = genResult(c, out[0])
 		cs.Result = encVal(cs.resVal)
 	}
-	cs.Src = fmt.Sprintf("{ print \"before\"; r = %s(%s); zobs(r, r, r); print \"after\" }", cs.Name, strings.Join(cs.Args, ", "))
+	cs.Src = c17Place(c, fmt.Sprintf("print \"before\"; r = %s(%s); zobs(r, r, r); print \"after\"", cs.Name, strings.Join(cs.Args, ", ")))
 	return cs
+}
+
+// c17Place puts the statements of a call case at one of the places a native function can be called from. In all of them the
+// only input record is current ($1..$9 of the argument table keep their values) and the statements run exactly once: a rule,
+// a user function called from a rule, END, END reached through exit in a rule or in BEGIN, BEGIN after a getline, a rule with
+// a pattern. (Seeded C17-p3: an error returned by a native function in END after exit was dropped.)
+func c17Place(c *vh.Ctx, body string) string {
+	k := c.Rng.Intn(10)
+	c.Hit(fmt.Sprintf("call-site:%d", k))
+	switch k {
+	case 0:
+		return "function wrap() { " + body + " } { wrap() }"
+	case 1:
+		return "END { " + body + " }"
+	case 2:
+		return "{ exit } END { " + body + " }"
+	case 3:
+		return "BEGIN { getline; " + body + " }"
+	case 4:
+		return "BEGIN { getline; exit } END { " + body + " }"
+	case 5:
+		return "$1 { " + body + " }"
+	case 6:
+		return "function wrap() { " + body + " } BEGIN { getline; exit 3 } END { wrap() }"
+	default:
+		return "{ " + body + " }"
+	}
 }
 
 func (cs *callCase) leanReq() string {
